@@ -1,7 +1,7 @@
 /-
   C03 — closing induction over the behaviour tree, and the outermost API calls.
 -/
-import GojaModel.C03.Lemmas5
+import GojaModel.C03.LemmasGen
 
 namespace GojaModel.C03
 
@@ -128,37 +128,48 @@ theorem apiNode_spec {runF : RunF} (HG : HypG runF) (HA : HypA runF) (lf : Nat) 
         | cons a l => simp [hc] at h
       exact (runProgramOuter_spec HG HA lf 7 b s hI h0).1
 
+theorem seq_good {runF : RunF} (HG : HypG runF) (a b : Beh) (s : Vm) (hI : Inv s) :
+    Good s (seqRes runF a b s) := by
+  unfold seqRes
+  simp only
+  have hg := HG a s hI
+  generalize runF a s = r at hg
+  obtain ⟨o, s1⟩ := r
+  obtain ⟨hc, hq⟩ := hg
+  cases o with
+  | normal =>
+    simp only [GoodCtl] at hc
+    have hg2 := HG b s1 (hc.inv hI)
+    simp only
+    generalize runF b s1 = r2 at hg2
+    obtain ⟨o2, s2⟩ := r2
+    obtain ⟨hc2, hq2⟩ := hg2
+    refine ⟨?_, fun hn => (hq2 hn).trans (hq (by simp))⟩
+    cases o2 with
+    | normal => simp only [GoodCtl] at hc2 ⊢; exact hc.trans hc2
+    | thrown => simp only [GoodCtl] at hc2 ⊢; exact hc.ext_left hc2
+    | fatal => simp only [GoodCtl] at hc2 ⊢; exact hc.ext_left hc2
+    | stuck => simp [GoodCtl] at hc2
+    | exit e => simp only [GoodCtl] at hc2 ⊢; exact hc.trans hc2
+  | thrown => exact ⟨by simpa [GoodCtl] using hc, fun _ => hq (by simp)⟩
+  | fatal => exact ⟨by simpa [GoodCtl] using hc, by simp [Quiet]⟩
+  | stuck => simp [GoodCtl] at hc
+  | exit e => exact ⟨by simpa [GoodCtl] using hc, fun _ => hq (by simp)⟩
+
 /-- one layer of the interpreter preserves the discipline for EVERY node kind -/
 theorem step_good {runF : RunF} (HG : HypG runF) (HA : HypA runF) (lf : Nat) :
     ∀ (b : Beh) (s : Vm), Inv s → Good s (step lf runF b s) := by
   intro b s hI
   cases b with
   | skip => exact ⟨by simpa [step, GoodCtl] using Same.refl s, fun _ => rfl⟩
-  | seq a b =>
-    simp only [step]
-    have hg := HG a s hI
-    generalize runF a s = r at hg
-    obtain ⟨o, s1⟩ := r
-    obtain ⟨hc, hq⟩ := hg
-    cases o with
-    | normal =>
-      simp only [GoodCtl] at hc
-      have hg2 := HG b s1 (hc.inv hI)
-      simp only
-      generalize runF b s1 = r2 at hg2
-      obtain ⟨o2, s2⟩ := r2
-      obtain ⟨hc2, hq2⟩ := hg2
-      refine ⟨?_, fun hn => (hq2 hn).trans (hq (by simp))⟩
-      cases o2 with
-      | normal => simp only [GoodCtl] at hc2 ⊢; exact hc.trans hc2
-      | thrown => simp only [GoodCtl] at hc2 ⊢; exact hc.ext_left hc2
-      | fatal => simp only [GoodCtl] at hc2 ⊢; exact hc.ext_left hc2
-      | stuck => simp [GoodCtl] at hc2
-      | exit e => simp only [GoodCtl] at hc2 ⊢; exact hc.trans hc2
-    | thrown => exact ⟨by simpa [GoodCtl] using hc, fun _ => hq (by simp)⟩
-    | fatal => exact ⟨by simpa [GoodCtl] using hc, by simp [Quiet]⟩
-    | stuck => simp [GoodCtl] at hc
-    | exit e => exact ⟨by simpa [GoodCtl] using hc, fun _ => hq (by simp)⟩
+  | seq a b => simpa [step] using seq_good HG a b s hI
+  | yieldThen a b => simpa [step] using seq_good HG a b s hI
+  | genNew slot n f body => simpa [step] using genNew_good slot n f body s
+  | genNext slot => simpa [step] using genNext_good HG HA slot s
+  | genThrow slot => simpa [step] using genThrow_good HA slot s
+  | genReturn slot => simpa [step] using genReturn_good slot s
+  | asyncNew n f body => simpa [step] using asyncNew_good HG HA n f body s
+  | asyncResume id => simpa [step] using asyncResume_good HG HA id s
   | probe id => simpa [step] using probe_good id s
   | throw_ => exact ⟨by simpa [step, GoodCtl] using (Same.refl s).toExt true, fun _ => rfl⟩
   | break_ => exact ⟨by simpa [step, GoodCtl] using Same.refl s, fun _ => rfl⟩
